@@ -44,9 +44,11 @@ type caller struct {
 	c *http.Client
 }
 
-func (c caller) TokenEndpoint() string                  { return opfix.Issuer + "/oauth/token" }
-func (c caller) HttpClient() *http.Client               { return c.c }
-func (c caller) GetDeviceAuthorizationEndpoint() string { return opfix.Issuer + "/device_authorization" }
+func (c caller) TokenEndpoint() string    { return opfix.Issuer + "/oauth/token" }
+func (c caller) HttpClient() *http.Client { return c.c }
+func (c caller) GetDeviceAuthorizationEndpoint() string {
+	return opfix.Issuer + "/device_authorization"
+}
 
 type helper struct {
 	name string
